@@ -477,6 +477,8 @@ func starves(pskLen, trials int) []Case {
 	return []Case{
 		mk([]string{"delete c"}, "add c "+k[2].String(), "delete c"),
 		mk([]string{"update a " + k[0].String()}, "update a "+k[2].String(), "update a "+k[0].String()),
+		// delete first, then add the same user again: the delete's live update must not land after the add's
+		mk([]string{"delete b", "add b " + k[1].String()}, "delete b", "add b "+k[1].String()),
 	}
 }
 
